@@ -617,7 +617,26 @@ func MutateStream(c *simkit.Choices, evs []simkit.Ev, n int) []simkit.Ev {
 		i := starts[c.N(len(starts))]
 		end := subtreeEnd(out, i)
 		var repl []simkit.Ev
-		switch c.N(9) {
+		switch c.N(11) {
+		case 9, 10: // drop one member of the object starting here
+			if out[i].K == simkit.KObjStart && end-i > 2 {
+				var members [][]simkit.Ev
+				for j := i + 1; j < end-1; {
+					e := subtreeEnd(out, j+1)
+					members = append(members, out[j:e])
+					j = e
+				}
+				drop := c.N(len(members))
+				repl = append(repl, out[i])
+				for m := range members {
+					if m != drop {
+						repl = append(repl, members[m]...)
+					}
+				}
+				repl = append(repl, out[end-1])
+			} else {
+				repl = append(repl, out[i:end]...)
+			}
 		case 0, 1:
 			repl = []simkit.Ev{{K: simkit.KNil}}
 		case 2:
